@@ -166,7 +166,16 @@ def step (st : State) (line : String) : State × String :=
       let relOk : Bool := match kv ws "rel" with
         | none => true
         | some k => (k.toNat?.map (fun k => decide (k ≤ 8))).getD false && !k.startsWith "+"
-      if relOk = true ∧ (cs.filter (· == "listen")).length ≤ 3 ∧ killOk = true ∧ 1 ≤ w ∧ w ≤ 8 ∧ ((1 ≤ l ∧ l ≤ 16 ∧ w * l ≤ n) ∨ (2 ^ 31 ≤ l ∧ l < 2 ^ 64 ∧ 1 ≤ n)) ∧ n ≤ 64 ∧ cs.all okCall ∧
+      -- `via=test` (TestServer::start_with_builder, one worker) and `resume=1|2` (resume() / pause()+resume() at the
+      -- plateau: no worker has released anything, so nothing more is dispatched): the prediction is unchanged
+      let killSet : Bool := match kv ws "kill" with | none => false | some k => k != "0"
+      let viaOk : Bool := match kv ws "via" with
+        | none => true
+        | some v => v == "test" && w == 1 && !killSet && (kv ws "resume").isNone
+      let resumeOk : Bool := match kv ws "resume" with
+        | none => true
+        | some r => r == "0" || r == "1" || r == "2"
+      if viaOk = true ∧ resumeOk = true ∧ relOk = true ∧ (cs.filter (· == "listen")).length ≤ 3 ∧ killOk = true ∧ 1 ≤ w ∧ w ≤ 8 ∧ ((1 ≤ l ∧ l ≤ 16 ∧ w * l ≤ n) ∨ (2 ^ 31 ≤ l ∧ l < 2 ^ 64 ∧ 1 ≤ n)) ∧ n ≤ 64 ∧ cs.all okCall ∧
           (cs.filter (fun c => c == "limit" || c == "maxconn")).length = 1 ∧ (cs.filter (· == "workers")).length = 1 then
         let cfg : Cfg := { limit := l, nIdx := w }
         let ops : List Op := (List.replicate n (Op.env (.connect 0))) ++ [Op.poll [.listener 0, .waker] []]
